@@ -31,6 +31,8 @@ CANARIES = [
     ('math_utils', 'S', r'first_factor\.count -= half_factor\.count;', '', 'partition_factors'),
     ('math_utils', 'S', r'this\.total_factor_count /= 2;', '', 'partition_factors'),
     ('math_utils', 'S', r'right_product <<= this\.power_two;', 'right_product <<= this.power_three;', 'partition_factors'),
+    ('math_utils', 'S', r'self\.other_factors\[0\]\.value <= factor', 'self.other_factors[0].value < factor', 'has_factors_leq'),
+    ('math_utils', 'S', r'verif_p = verif_p \* f\.value\.pow\(f\.count\);', 'verif_p = verif_p * f.value;', 'product_above'),
     ('plan_scalar', 'S', r'if \*left \* right == len && verif_contains', 'if verif_contains', 'design_butterfly_product'),
     ('plan_scalar', 'S', r'if gcd\(left_len, right_len\) == 1 \{', 'if gcd(left_len, right_len) != 1 {', 'design_butterfly_product'),
     ('plan_scalar', 'S', r'if len < 2 \{', 'if len < 3 {', 'design_fft_for_len'),
